@@ -29,7 +29,10 @@ RULE_ADDED = (
               'Also: key runs naming another version on an existing file or creating the file; '
               'look-alike hashes (only blanks between digits may be tolerated, and then '
               'canonically); the same signature repeated in the file; half of the authorize '
-              'dialogues through adm_ledger main() ')
+              'dialogues through adm_ledger main() '
+              ' '
+              "Round 8: a quarter of the device dialogues end with the transport's close() rais"
+              'ing (judged in one direction: never success when the device never authorized). ')
 RULE = RULE + " " + RULE_ADDED.strip()
 ASSUMPTIONS = [
     "own Keccak-256 (pv/oracle/hashes.py) and OpenSSL verification are the oracles",
@@ -368,7 +371,7 @@ def device_dialogues(acc, rng, out, app_hash, it, bad, do_authorize_signer):
 def run_shard(spec, acc):
     env.setup()
     rng = random.Random(spec["seed"])
-    tmpdir = tempfile.mkdtemp(prefix="pv-c17-")
+    tmpdir = env.mkdtemp("c17", spec.get("shard", spec.get("seed", 0)) % 2 == 1)
     try:
         for i in range(spec["n"]):
             run_case(acc, rng.getrandbits(48), tmpdir)
@@ -378,7 +381,7 @@ def run_shard(spec, acc):
 
 def replay(case, acc):
     env.setup()
-    tmpdir = tempfile.mkdtemp(prefix="pv-c17-")
+    tmpdir = env.mkdtemp("c17")
     try:
         run_case(acc, case["seed"], tmpdir)
     finally:
